@@ -82,6 +82,33 @@ claim("C06",
       "through it, so the outcome cannot depend on segmentation.",
       "Not decided: net/textproto on arbitrary bytes, header size limits, index safety of the two line parsers.")
 
+claim("C01",
+      "rule over every Read([]byte) method (len(p)-dependent error returns; remainder-store must-pass-through after copy), provenance of returned connections, who-may-use of the unbuffered field, pipe wiring, constant bounds",
+      "Decides four structural necessary conditions of loss-free carriage through the adapters this repository wrote: no Read method fails because "
+      "the caller's buffer is small and every partial copy stores its remainder back on all paths; BufferedInputConnection.Read delegates to the "
+      "bufio.Reader, connections returned by the handshake functions derive from the buffered connection and neither the raw carrier nor the embedded "
+      "unbuffered connection is used again; PipeData starts one copier per direction and each reaches io.Copy* with its own reader/writer; both smux "
+      "configurations start from DefaultConfig with MaxFrameSize inside smux's range. Not byte equality.",
+      "Not decided: equality of delivered bytes, library behaviour (smux, gorilla, kcp, crypto/tls), partial writes.")
+
+claim("C16",
+      "control-dependence, induction-variable and path rules on SSA; lock-region (held-set) analysis with caller propagation; must-pass-through for timeouts",
+      "Decides the control structure of the client's connection policy: the upstream connect is reachable only on ConnectDirectly's false edge; "
+      "upstreams are tried as Data[0], Data[1], ... with failure continuing and the first success returning, no reordering helper; the shared "
+      "connection/session are stored only while the upstream mutex is held (directly or in helpers called only under it) and a new physical "
+      "connection is opened only under connection == nil || connection.Closed() inside the critical section; a deadline/timer must precede the "
+      "blocking client handshake in every Upstream.Connect (violated on the pinned tree at all five: recorded known findings).",
+      "Not decided: numeric time bounds, OS connect time-outs, reconnect after loss (smux keep-alive timing).")
+
+claim("C18",
+      "switch-table extraction from the typed AST compared with a transcribed documentation table; sibling-switch agreement; path rule for +tls flags; call-graph reachability of dispatchers; maybe-nil phi dereference rule",
+      "Decides the table structure of address interpretation: every documented scheme has a case constructing the documented type in the four "
+      "dispatchers, each switch has an error-returning default, sibling switches agree; every implementation chosen for a +tls scheme sets its "
+      "secure flag on every successful +tls path and ProtoAddress.Addr covers the admitted socket/packet schemes; all Unmarshal{YAML,JSON,Flag} "
+      "forms of a configuration type reach the same dispatcher (Channels.UnmarshalFlag does not: recorded known finding); no maybe-nil pointer is "
+      "dereferenced unguarded in the parsing cone.",
+      "Not decided: net/url parsing, the yaml/reflection bridge, arbitrary malformed strings. README table is transcribed in the checker.")
+
 for pid in ["C01","C02","C03","C04","C05","C06","C07","C08","C09","C10","C11","C12","C13","C14","C15","C16","C17","C18"]:
     if pid not in P:
         na(pid, PENDING)
